@@ -4,6 +4,7 @@ package main
 // equality, agrees with ranking, depth-limit panics, collator stays usable).
 
 import (
+	"fmt"
 	"math"
 
 	age "github.com/craterdog/go-collection-framework/v4/agent"
@@ -559,6 +560,51 @@ func runCollator(id, tier string, seed int64, out *Out) {
 		}
 		caseID++
 		tripleLine(out, caseID, shared, a, b, c)
+	}
+	// 2b. targeted families: nil values under renamed keys, wide maps of collections, keys of equal rank
+	for _, n := range []int{1, 2, 3} {
+		a, b := map[any]any{}, map[any]any{}
+		for i := 0; i < n; i++ {
+			a[fmt.Sprintf("k%d", i)] = int64(i)
+			b[fmt.Sprintf("k%d", i)] = int64(i)
+		}
+		a["alpha"], b["gamma"] = nil, nil // same size, the nil sits under differently named keys
+		caseID++
+		pairLine(out, caseID, shared, a, b, J{"mut": true, "fam": "nil-under-renamed-key"})
+		ma, mb := col.Map[any, any](notation).MakeFromMap(a), col.Map[any, any](notation).MakeFromMap(b)
+		caseID++
+		pairLine(out, caseID, shared, ma, mb, J{"mut": true, "fam": "nil-under-renamed-key"})
+		ca, cb := col.Catalog[any, any](notation).MakeFromMap(a), col.Catalog[any, any](notation).MakeFromMap(a)
+		cb.SetValue("alpha", int64(0))
+		caseID++
+		pairLine(out, caseID, shared, ca, cb, J{"mut": true, "fam": "nil-vs-zero"})
+	}
+	for _, n := range []int{8, 15, 16, 17, 20, 40} {
+		a := map[any]any{}
+		for i := 0; i < n; i++ {
+			a[int64(i)] = col.List[any](notation).MakeFromArray([]any{int64(i), "x"})
+		}
+		caseID++
+		pairLine(out, caseID, shared, a, rebuild(a), J{"copy": true, "fam": "wide-map-of-collections"})
+		caseID++
+		pairLine(out, caseID, shared, col.Map[any, any](notation).MakeFromMap(a), rebuild(col.Map[any, any](notation).MakeFromMap(a)), J{"copy": true, "fam": "wide-map-of-collections"})
+		xs := make([]any, n)
+		for i := range xs {
+			xs[i] = []any{int64(i)}
+		}
+		caseID++
+		pairLine(out, caseID, shared, xs, rebuild(xs), J{"copy": true, "fam": "wide-array-of-collections"})
+	}
+	// keys that rank Equal without being the identical Go key (ranking only: CompareValues is
+	// not defined across integer widths, which lie outside the canonical universe)
+	for _, pair := range [][2]any{{int(1), int64(1)}, {int8(1), int(1)}, {uint16(7), uint64(7)}, {float32(0.5), float64(0.5)}} {
+		a := map[any]any{pair[0]: "x"}
+		b := map[any]any{pair[1]: "x"}
+		c := map[any]any{pair[1]: "y"}
+		caseID++
+		pairLine(out, caseID, shared, a, b, J{"rankonly": true, "fam": "keys-of-equal-rank"})
+		caseID++
+		pairLine(out, caseID, shared, a, c, J{"rankonly": true, "fam": "keys-of-equal-rank"})
 	}
 	// 3. depth limit: nests around the maximum, self-containing values, and the collator afterwards
 	for _, max := range []int{0, 1, 2, 3, 16} {
